@@ -82,6 +82,12 @@ def gen(rng, tier):
             x, y = tiny_u_bop(), rng.choice([tiny_u_bop(), G.grid_bop(rng, 8)])
             out += bin_cases(rng, ty, x, y, "sub_epsilon_uncertainty")
             out += bin_cases(rng, ty, y, x, "sub_epsilon_uncertainty")
+        # base rates at the bottom of the exponent range (subnormal, exactly representable)
+        for _ in range(20 if tier == "quick" else 1000):
+            t = 2.0 ** -(rng.choice([1030, 1040, 1060]) if ty == "f64" else rng.choice([130, 135, 140]))
+            x, y = G.grid_bop(rng, 8), G.grid_bop(rng, 8)
+            x[3], y[3] = t, rng.choice([0.0, t, 2 * t])
+            out += bin_cases(rng, ty, x, y, "subnormal_base_rate")
         # discounts
         for _ in range(300 if tier == "quick" else 20000):
             grid = rng.chance(1, 2)
